@@ -13,8 +13,12 @@ package objectdeployments
 // parties editing spec.lifecycleState / the paused-by-parent annotation independently ("edit"),
 // deleting revisions ("del"), pausing the deployment ("pause"), changing revisionHistoryLimit.
 //
+// A revision's objects live inline in its ObjectSet and/or in real ObjectSlice objects of the store
+// that its phases reference ("sl" of a revision / a roll-out; "sm": a referenced slice is missing).
+//
 // The output line is what the harness OBSERVES: for every pass the ObjectSets in the store right
-// before it, the ordered writes, the result, and the ObjectSets right after it.
+// before it (with the objects of the ObjectSlices they reference, read from the store), the ordered
+// writes, the result, and the ObjectSets right after it.
 
 import (
 	"context"
@@ -41,6 +45,8 @@ type c08Op struct {
 	Sp   *bool   `json:"sp,omitempty"`
 	Co   *[]int  `json:"co,omitempty"` // absent = nil slice
 	Obj  *[]int  `json:"obj,omitempty"`
+	Sl   *[]int  `json:"sl,omitempty"`  // new: keys of the objects that live in ObjectSlices
+	Sm   *bool   `json:"sm,omitempty"`  // new: a referenced ObjectSlice does not exist
 	Lc   *string `json:"lc,omitempty"`  // edit: absent = lifecycleState untouched
 	Pbp  *bool   `json:"pbp,omitempty"` // edit: absent = annotation untouched
 	B    *bool   `json:"b,omitempty"`
@@ -97,19 +103,32 @@ func c08Snap(c *c08Client, od *adapters.ObjectDeployment) string {
 			}
 			co = strings.Join(ks, ".")
 		}
-		var objs []string
+		var objs, sliced []string
+		missing := false
 		for _, ph := range os.Spec.Phases {
 			for _, o := range ph.Objects {
 				objs = append(objs, strings.TrimPrefix(o.Object.GetName(), "k"))
 			}
+			// the ObjectSlice objects the phase names, as they are in the store
+			for _, name := range ph.Slices {
+				sl, ok := c.slices[name]
+				if !ok {
+					missing = true
+					continue
+				}
+				for _, o := range sl.Objects {
+					sliced = append(sliced, strings.TrimPrefix(o.Object.GetName(), "k"))
+				}
+			}
 		}
-		parts = append(parts, fmt.Sprintf("%s/%d/%s%s%s%s%s%s/%s/%s", c08Idx(os.Name), os.Status.Revision, lc,
+		parts = append(parts, fmt.Sprintf("%s/%d/%s%s%s%s%s%s%s/%s/%s/%s", c08Idx(os.Name), os.Status.Revision, lc,
 			b(os.Annotations[c08PbpAnn] == "true"),
 			b(meta.IsStatusConditionTrue(os.Status.Conditions, corev1alpha1.ObjectSetAvailable)),
 			b(meta.IsStatusConditionTrue(os.Status.Conditions, corev1alpha1.ObjectSetPaused)),
 			b(os.DeletionTimestamp != nil),
 			b(hasHash && hash == od.Status.TemplateHash),
-			co, strings.Join(objs, ".")))
+			b(missing),
+			co, strings.Join(objs, "."), strings.Join(sliced, ".")))
 	}
 	return strings.Join(parts, ",")
 }
@@ -131,32 +150,22 @@ func (c *c08Client) remove(name string) {
 }
 
 func c08HistExec(h c08Hist) string {
-	c := &c08Client{fin: h.Fin, store: map[string]*corev1alpha1.ObjectSet{}, gone: map[string]bool{}}
+	c := c08NewClient(h.Fin, false)
 	var hi int64
 	for i, r := range h.Init {
-		os := c08ObjectSet(i, r)
+		os, slices := c08ObjectSet(i, r, c.ns())
 		if h.Fin || r.Dt {
 			os.Finalizers = []string{"package-operator.run/cached"}
 		}
-		c.items = append(c.items, os)
-		c.store[os.Name] = os
+		c.add(os, slices)
 		if r.Rev > hi {
 			hi = r.Rev
 		}
 	}
 	next := len(h.Init)
 	ctx := logr.NewContext(context.Background(), logr.Discard())
-	od := &adapters.ObjectDeployment{}
-	od.Name = "od"
-	od.Namespace = c08NS
-	od.Generation = 1
-	od.Spec.RevisionHistoryLimit = h.Limit
-	od.Spec.Paused = h.Odp
-	od.Status.TemplateHash = c08Hash
-	ctl := NewObjectDeploymentController(c, logr.Discard(), c08Scheme)
-	osr := ctl.reconciler[1].(*objectSetReconciler)
-	ar := osr.reconcilers[1].(*archiveReconciler)
-	osr.reconcilers = []objectSetSubReconciler{ar}
+	od := c08Deployment(c, h.Limit, h.Odp).(*adapters.ObjectDeployment)
+	osr, _ := c08Controller(c)
 
 	live := func(i *int) *corev1alpha1.ObjectSet {
 		if i == nil {
@@ -192,12 +201,13 @@ func c08HistExec(h c08Hist) string {
 		case "new":
 			id := next
 			next++
-			r := c08Rev{Av: c08B(op.Av), Sp: c08B(op.Sp), Lc: "A", Co: c08Keys(op.Co), Obj: c08Keys(op.Obj), Hm: true}
+			r := c08Rev{Av: c08B(op.Av), Sp: c08B(op.Sp), Lc: "A", Co: c08Keys(op.Co), Obj: c08Keys(op.Obj), Hm: true,
+				Sl: c08Keys(op.Sl), Sm: c08B(op.Sm)}
 			if !c08B(op.Rev0) {
 				hi++
 				r.Rev = hi
 			}
-			os := c08ObjectSet(id, r)
+			os, slices := c08ObjectSet(id, r, c.ns())
 			if h.Fin {
 				os.Finalizers = []string{"package-operator.run/cached"}
 			}
@@ -205,8 +215,7 @@ func c08HistExec(h c08Hist) string {
 			hash := "h" + strconv.Itoa(id)
 			os.Annotations[ObjectSetHashAnnotation] = hash
 			od.Status.TemplateHash = hash
-			c.items = append(c.items, os)
-			c.store[os.Name] = os
+			c.add(os, slices)
 		case "st":
 			if st := live(op.I); st != nil {
 				idx, _ := strconv.Atoi(c08Idx(st.Name))
@@ -269,7 +278,7 @@ func c08HistExec(h c08Hist) string {
 // c08HistTags: input-distribution tags of a history and its observed trace.
 func c08HistTags(h c08Hist, out string) []string {
 	tags := []string{}
-	passes, prunes, prunesWithTerm, termListed, pausedPasses := 0, 0, 0, 0, 0
+	passes, prunes, prunesWithTerm, termListed, pausedPasses, slicedPasses := 0, 0, 0, 0, 0, 0
 	kinds := map[string]bool{}
 	for _, seg := range strings.Split(out, "|") {
 		f := strings.Split(seg, ";")
@@ -278,14 +287,21 @@ func c08HistTags(h c08Hist, out string) []string {
 		}
 		passes++
 		term := false
+		slicedListed := false
 		for _, r := range strings.Split(strings.TrimPrefix(f[0], "S"), ",") {
 			p := strings.Split(r, "/")
-			if len(p) == 5 && len(p[2]) == 6 && p[2][4] == '1' {
+			if len(p) == 6 && len(p[2]) == 7 && p[2][4] == '1' {
 				term = true
+			}
+			if len(p) == 6 && (p[5] != "" || (len(p[2]) == 7 && p[2][6] == '1')) {
+				slicedListed = true
 			}
 		}
 		if term {
 			termListed++
+		}
+		if slicedListed {
+			slicedPasses++
 		}
 		if f[1] == "1" {
 			pausedPasses++
@@ -322,6 +338,9 @@ func c08HistTags(h c08Hist, out string) []string {
 	}
 	if pausedPasses > 0 {
 		tags = append(tags, "paused-pass")
+	}
+	if slicedPasses > 0 {
+		tags = append(tags, "pass-lists-sliced-revision")
 	}
 	for k := range kinds {
 		tags = append(tags, "w="+k)
@@ -361,6 +380,18 @@ func c08pk(v []int) *[]int   { return &v }
 func c08OpOD() c08Op { return c08Op{Op: "od"} }
 func c08OpNew(av bool, obj []int) c08Op {
 	return c08Op{Op: "new", Av: c08pb(av), Sp: c08pb(false), Co: c08pk([]int{}), Obj: c08pk(obj)}
+}
+
+// c08OpNewSl: roll-out of a revision whose objects live (partly) in ObjectSlices.
+func c08OpNewSl(av bool, obj, sl []int, sm bool) c08Op {
+	o := c08OpNew(av, obj)
+	if sl != nil {
+		o.Sl = c08pk(sl)
+	}
+	if sm {
+		o.Sm = c08pb(true)
+	}
+	return o
 }
 func c08OpSt(i int, av, sp bool, co []int) c08Op {
 	o := c08Op{Op: "st", I: c08pi(i), Av: c08pb(av), Sp: c08pb(sp)}
@@ -464,6 +495,10 @@ func c08RandHist(x *c08HistRunner, pauseHeavy bool) c08Hist {
 		if h.Fin && rng.Intn(6) == 0 {
 			rv.Dt = true
 		}
+		if rng.Intn(3) == 0 {
+			rv.Obj, rv.Sl = c08Split(rng.Intn, rv.Obj)
+			rv.Sm = rng.Intn(10) == 0
+		}
 		if pauseHeavy && rng.Intn(2) == 0 {
 			rv.Lc = []string{"A", "P", "P", "X"}[rng.Intn(4)]
 			rv.Pbp = rng.Intn(2) == 0
@@ -500,6 +535,10 @@ func c08RandHist(x *c08HistRunner, pauseHeavy bool) c08Hist {
 				if rng.Intn(8) == 0 {
 					o.Rev0 = c08pb(true)
 				}
+				if rng.Intn(3) == 0 {
+					in, sl := c08Split(rng.Intn, *o.Obj)
+					o.Obj, o.Sl = c08pk(in), c08pk(sl)
+				}
 				h.Ops = append(h.Ops, o)
 				next++
 			case p < 93:
@@ -518,6 +557,14 @@ func c08RandHist(x *c08HistRunner, pauseHeavy bool) c08Hist {
 			o := c08OpNew(rng.Intn(4) != 0, randKeys())
 			if rng.Intn(10) == 0 {
 				o.Rev0 = c08pb(true)
+			}
+			// a big package: (some of) the objects of the new revision live in ObjectSlices
+			if rng.Intn(3) == 0 {
+				in, sl := c08Split(rng.Intn, *o.Obj)
+				o.Obj, o.Sl = c08pk(in), c08pk(sl)
+				if rng.Intn(10) == 0 {
+					o.Sm = c08pb(true)
+				}
 			}
 			h.Ops = append(h.Ops, o)
 			next++
@@ -642,6 +689,61 @@ func TestVerifC08Hist(t *testing.T) {
 	}
 	r.Extra["exhaustive_hist_len"] = L
 	r.Extra["exhaustive_hist_count"] = count
+
+	// ---- 1b. roll-outs of revisions whose objects live in ObjectSlices: every operation sequence up
+	// to length L over {pass; roll-out of an unavailable revision that contains the object the
+	// replaced revision serves — in a slice / inline / in a slice next to inline objects / in no
+	// known place while one of its slices is missing; the replaced revision turns unavailable /
+	// confirms its pause still controlling the object / having released it; the newest revision
+	// becomes Available having adopted it}, starting from one serving revision and from a chain.
+	{
+		serving := c08Rev{Rev: 1, Lc: "A", Av: true, Co: []int{0}, Obj: []int{0}, Hm: true}
+		chain := c08Chain(1, "P", true, false, true)
+		chain[2].Co, chain[2].Obj = []int{0}, []int{0}
+		count = 0
+		for ii, init := range [][]c08Rev{{serving}, chain} {
+			for _, limit := range []*int32{nil, c08P(1)} {
+				var rec func(ops []c08Op, next int)
+				rec = func(ops []c08Op, next int) {
+					if len(ops) > 0 {
+						h := c08Hist{Fin: true, Limit: limit, Init: init}
+						h.Ops = append(append([]c08Op{}, ops...), c08OpOD())
+						x.run(h)
+						count++
+					}
+					if len(ops) == L || (len(ops) == 4 && (ii > 0 || limit != nil)) {
+						return // depth 5 (thorough) only from the single serving revision with the default limit
+					}
+					alpha := []c08Op{
+						c08OpOD(),
+						c08OpNewSl(false, []int{}, []int{0}, false),
+						c08OpNewSl(false, []int{1}, []int{2, 0}, false),
+						c08OpNewSl(false, []int{0}, nil, false),
+						c08OpNewSl(false, []int{1}, []int{2}, true),
+						c08OpSt(next-2, false, false, []int{0}),
+						c08OpSt(next-2, false, true, []int{0}),
+						c08OpSt(next-2, false, true, []int{}),
+						c08OpSt(next-1, true, false, []int{0}),
+					}
+					for _, o := range alpha {
+						if len(ops) > 0 && ops[len(ops)-1].Op == "od" && o.Op == "od" {
+							continue
+						}
+						if o.Op == "st" && *o.I < 0 {
+							continue
+						}
+						nx := next
+						if o.Op == "new" {
+							nx++
+						}
+						rec(append(append([]c08Op{}, ops...), o), nx)
+					}
+				}
+				rec(nil, len(init))
+			}
+		}
+		r.Extra["exhaustive_sliced_hist_count"] = count
+	}
 
 	// ---- 2. every subset of terminating revisions in an archived history of length 2..5, every
 	// limit: one pruning round, teardown of some of them finishes, a roll-out, a second round.
